@@ -90,6 +90,28 @@ func gen(t *rapid.T) Case {
 		}
 		c.Ops = append(c.Ops, op)
 	}
+	// a server-stream correctable that is behind on its replies when Close (or a stream failure)
+	// strikes: the nodes have sent more replies than the slow quorum function has taken, so the
+	// call's reply channel is full at that instant; the caller waits in Get/Done or in Watch
+	if rapid.IntRange(0, 3).Draw(t, "backlog") == 0 {
+		ci := rapid.IntRange(0, len(c.Configs)).Draw(t, "backlogCfg") // 0 = all nodes
+		kind := rapid.SampledFrom([]string{"CorrStream", "CorrStream", "CorrStreamCustom", "CorrStreamPerNode", "CorrStreamCombo"}).Draw(t, "backlogKind")
+		op := peng.Op{Kind: "call", Thread: 1 + rapid.IntRange(0, c.Threads-2).Draw(t, "backlogThr"), Mgr: 0,
+			Call: scen.CallSpec{Kind: kind, Config: ci, Ctx: "background"}, Behav: map[int]scen.Behaviour{}}
+		op.Call.Script = scen.QScript{Kind: "threshold", Q: 1000, SlowUs: rapid.SampledFrom([]int{1000, 5000, 20000}).Draw(t, "backlogSlowUs")}
+		op.Await = true
+		op.Call.WaitWatch = rapid.IntRange(0, 2).Draw(t, "backlogWatch") == 0
+		for s := 0; s < n; s++ {
+			bh := scen.Behaviour{}
+			k := rapid.IntRange(3, 9).Draw(t, fmt.Sprintf("backlogItems%d", s))
+			for j := 0; j < k; j++ {
+				bh.Stream = append(bh.Stream, scen.StreamItem{Level: int32(j + 1)})
+			}
+			bh.StreamEndless = rapid.IntRange(0, 3).Draw(t, fmt.Sprintf("backlogEndless%d", s)) == 0
+			op.Behav[s] = bh
+		}
+		c.Ops = append(c.Ops, op)
+	}
 	// a server that crashes and comes back before Close: its node has been through a reconnection
 	if rapid.IntRange(0, 3).Draw(t, "restart") == 0 {
 		s := rapid.IntRange(0, n-1).Draw(t, "restartNode")
